@@ -105,10 +105,7 @@ func run(ctx *bex.Ctx) {
 	if !ctx.Quick() {
 		maxExecs = 400000
 	}
-	threads := []int{2}
-	if !ctx.Quick() {
-		threads = []int{2, 3}
-	}
+	threads := []int{2, 3}
 	for _, p := range programs(ctx.Quick()) {
 		for _, T := range threads {
 			for _, args := range [][]int{{0, 0, 0}, {0, 1, 2}, {1, 0, 1}} {
